@@ -91,6 +91,9 @@ func run(col *core.Collector, prop, tier, variant string, seed uint64, shard, ns
 		if prop == "C06" {
 			conc.RunC06Expiry(col, tier, variant, seed, shard, nshards, replayDir)
 		}
+		if prop == "C20" {
+			conc.RunC20Expiry(col, tier, variant, seed, shard, nshards, replayDir)
+		}
 	case "C15":
 		conc.RunC15(col, tier, variant, seed, shard, nshards, replayDir, out)
 	case "C16":
